@@ -392,3 +392,70 @@ fn db_open_reloads_long_freelist() {
         std::mem::forget(db);
     }
 }
+
+// ---- C12: a zeroed header page (e.g. a lost sector) falls back to the other header
+// @ob props=C12 tier=quick cap=400 fns=DBInner::meta,Page::from_buf,Page::meta,Meta::valid bound="concrete headers (tx 6 in slot 0, tx 7 in slot 1); the first 104 bytes of slot 0 or of slot 1 zeroed (symbolic choice)" unwind=40
+#[kani::proof]
+#[kani::unwind(40)]
+fn db_meta_zeroed_header_page() {
+    lay_meta(0, 0, 6, 3, 5, 9, 2, PS);
+    lay_meta(1, 1, 7, 4, 6, 10, 8, PS);
+    let db = mk_dbinner(4, DBFlags { strict_mode: false, mmap_populate: false, direct_writes: false });
+    let d = jv_env::disk();
+    let which: bool = kani::any();
+    let base = if which { (PS / 8) as usize } else { 0 };
+    let mut w = 0;
+    while w < 13 {
+        d.words[base + w] = 0;
+        w += 1;
+    }
+    let m = db.meta();
+    assert!(m.is_ok());
+    if let Ok(m) = m {
+        if which {
+            assert!(m.meta_page == 0 && m.tx_id == 6 && m.root.root_page == 3 && m.freelist_page == 2, "newest header zeroed: the previous commit is shown in full");
+        } else {
+            assert!(m.meta_page == 1 && m.tx_id == 7 && m.root.root_page == 4 && m.freelist_page == 8, "older header zeroed: the newest commit is shown");
+        }
+    }
+    std::mem::forget(db);
+}
+
+// ---- C15: a file carrying only legacy-format headers is accepted through the legacy path and converted
+//      (the SHA3 checksum is the solver builds' stand-in function, see env/sha3)
+// @ob props=C15 tier=quick cap=600 fns=DBInner::meta,Page::old_meta,OldMeta::valid,OldMeta::hash_self,OldMeta::bytes,Meta::from<&OldMeta> bound="both header slots in the legacy layout (32-byte checksum), concrete fields, tx 6 and tx 7" unwind=40
+#[kani::proof]
+#[kani::unwind(40)]
+fn db_meta_legacy_headers_accepted() {
+    let d = jv_env::disk();
+    let mut s = 0u64;
+    while s < 2 {
+        unsafe {
+            let p = &mut *(d.as_mut_ptr().add((s * PS) as usize) as *mut Page);
+            p.id = s;
+            p.page_type = Page::TYPE_META;
+            p.count = 0;
+            p.overflow = 0;
+            let m = &mut *(&mut p.ptr as *mut u64 as *mut crate::meta::OldMeta);
+            m.meta_page = s as u32;
+            m.magic = MAGIC_VALUE;
+            m.version = VERSION;
+            m.pagesize = PS;
+            m.root = BucketMeta { root_page: 3 + s, next_int: 5 };
+            m.num_pages = 9;
+            m.freelist_page = 2;
+            m.tx_id = 6 + s;
+            m.hash = m.hash_self();
+        }
+        s += 1;
+    }
+    let db = mk_dbinner(4, DBFlags { strict_mode: false, mmap_populate: false, direct_writes: false });
+    let m = db.meta();
+    assert!(m.is_ok(), "a legacy-format file opens");
+    if let Ok(m) = m {
+        assert!(m.tx_id == 7 && m.meta_page == 1 && m.root.root_page == 4 && m.root.next_int == 5 && m.num_pages == 9 && m.freelist_page == 2 && m.pagesize == PS,
+                "with the contents of its newest legacy header");
+        assert!(m.valid(), "converted to a valid new-format record");
+    }
+    std::mem::forget(db);
+}
